@@ -19,3 +19,6 @@ Record obj := {
   o_cls   : nat;             (* class id *)
   o_name  : option (list N); (* Some n when hasattr(obj, "name") and obj.name is the text n *)
   o_attrs : list attr }.
+
+(* ImportURI.__call__ (FQNImportURI, FQNGlobalRepo): where the wrapped provider is started *)
+Inductive phase := POwn | PLocal | PBuiltin.
